@@ -1,0 +1,15 @@
+//go:build verif
+
+// Constructors used only by the deterministic-simulation harness (build tag verif).
+package target
+
+import (
+	"github.com/onosproject/onos-config/pkg/southbound/gnmi"
+	"github.com/onosproject/onos-config/pkg/store/topo"
+)
+
+func NewReconcilerForVerif(c gnmi.ConnManager, t topo.Store) *Reconciler {
+	return &Reconciler{conns: c, topo: t}
+}
+func NewConnWatcherForVerif(c gnmi.ConnManager) *ConnWatcher { return &ConnWatcher{conns: c} }
+func NewTopoWatcherForVerif(t topo.Store) *TopoWatcher       { return &TopoWatcher{topo: t} }
